@@ -729,9 +729,145 @@ theorem isSome_false_none {α : Type} {o : Option α} (h : ¬ o.isSome = true) :
   | none => rfl
   | some _ => simp at h
 
+/-! ### `_restore_state` -/
+
+theorem invW_of_frame {c : Cfg} {s s' : St} (f : Frame s s')
+    (hf : s'.failed = none → s.failed = none) (w : InvW c s) : InvW c s' := by
+  have hl : live s' = live s := by unfold live; rw [f.timers]
+  refine ⟨?_, ?_, ?_, ?_⟩
+  · rcases w.timer with h | h
+    · exact .inl (idle_of_frame f h)
+    · right
+      obtain ⟨h, h1, h2, h3, h4, h5, h6⟩ := h
+      refine ⟨h, by rw [hl]; exact h1, by rw [f.active]; exact h2, by rw [f.epoch]; exact h3,
+        fun hn => by rw [f.now]; exact h4 (hf hn), by rw [f.stopped]; exact h5, by rw [f.state]; exact h6⟩
+  · rw [f.fires, f.epoch]; exact w.logOk
+  · rw [hl, f.fires, f.epoch]; exact w.below
+  · rw [f.fires]; exact w.nodup
+
+theorem setOut_defined (s : St) (v : Val) (hu : s.out.isUndef = true) (hv : v.isUndef = false) :
+    (setOut s v).out = v ∧ (setOut s v).failed = s.failed ∧ (setOut s v).next = s.next := by
+  have hp : s.out.pyEq v = false := by
+    cases ho : s.out <;> simp [ho, Val.isUndef] at hu
+    cases v <;> simp [Val.isUndef] at hv <;> rfl
+  simp [setOut, hv, hp, St.emit]
+
+/-- the end of `_restore_state` on a block without timer whose past visits are all older than the current one:
+    a timer exists afterwards only together with an output -/
+theorem restoreTail_spec {c : Cfg} {s : St} (w : InvW c s) (hi : Idle s) (hu : s.out.isUndef = true)
+    (hlog : ∀ x ∈ fires s.log, x.2.2 < s.epoch) (arm : Option (Nat × TEvent)) (m : CalcMode)
+    (harm : ∀ d ev, arm = some (d, ev) → ∃ q dflt, s.state = some q ∧ c.tbl.timedOf q = some (ev, dflt)) :
+    Inv c (restoreTail c s arm m).1 ∧ (restoreTail c s arm m).1.stopped = s.stopped ∧
+    fires (restoreTail c s arm m).1.log = fires s.log ∧ (restoreTail c s arm m).1.failed = s.failed ∧
+    (restoreTail c s arm m).1.next = s.next ∧ (restoreTail c s arm m).1.state = s.state ∧
+    (restoreTail c s arm m).1.now = s.now ∧
+    ((restoreTail c s arm m).1.out.isUndef = true → (restoreTail c s arm m).1 = s) := by
+  have base : Inv c s := w.toInv (fun _ _ => hi)
+  unfold restoreTail
+  split
+  · exact ⟨base, rfl, rfl, rfl, rfl, rfl, rfl, fun _ => rfl⟩
+  · next v _ =>
+    split
+    · exact ⟨base, rfl, rfl, rfl, rfl, rfl, rfl, fun _ => rfl⟩
+    · next hv =>
+      have hv' : v.isUndef = false := by simpa using hv
+      dsimp only
+      -- the state with the timer started
+      have key : ∀ s2 : St, InvW c s2 → s2.out = s.out → s2.stopped = s.stopped → fires s2.log = fires s.log →
+          s2.failed = s.failed → s2.next = s.next → s2.state = s.state → s2.now = s.now →
+          Inv c (setOut s2 v) ∧ (setOut s2 v).stopped = s.stopped ∧ fires (setOut s2 v).log = fires s.log ∧
+          (setOut s2 v).failed = s.failed ∧ (setOut s2 v).next = s.next ∧ (setOut s2 v).state = s.state ∧
+          (setOut s2 v).now = s.now ∧ ((setOut s2 v).out.isUndef = true → setOut s2 v = s) := by
+        intro s2 w2 ho hst hfi hfa hnx hsta hnow
+        have f := frame_setOut s2 v
+        have so := setOut_defined s2 v (by rw [ho]; exact hu) hv'
+        have hdef : (setOut s2 v).out.isUndef = false := by rw [so.1]; exact hv'
+        refine ⟨(invW_of_frame f (fun h => by rw [← so.2.1]; exact h) w2).toInv
+            (fun h => by rw [hdef] at h; cases h), f.stopped.trans hst, f.fires.trans hfi, so.2.1.trans hfa,
+          so.2.2.trans hnx, f.state.trans hsta, f.now.trans hnow, fun h => by rw [hdef] at h; cases h⟩
+      cases arm with
+      | none => exact key s w rfl rfl rfl rfl rfl rfl rfl
+      | some de =>
+        obtain ⟨d, ev⟩ := de
+        dsimp only
+        rcases Bool.eq_false_or_eq_true s.stopped with hs | hs
+        · rw [setTimer_stopped _ _ _ hs]; exact key s w rfl rfl rfl rfl rfl rfl rfl
+        · have sf := setTimer_fields s d ev
+          have sl := live_setTimer s d ev hs hi.1
+          have sa := setTimer_active s d ev hs
+          obtain ⟨q, dflt, hq, ht⟩ := harm d ev rfl
+          refine key (setTimer s d ev) ⟨.inr ⟨_, sl, sa, sf.2.2.1.symm, fun _ => ?_, sf.2.1.trans hs, q, dflt,
+              sf.2.2.2.1.trans hq, ht⟩, ?_, ?_, ?_⟩ sf.2.2.2.2.2.2.1 sf.2.1 sf.2.2.2.2.2.2.2
+            sf.2.2.2.2.2.1 sf.2.2.2.2.1 sf.2.2.2.1 sf.1
+          · rw [sf.1]; show s.now ≤ s.now + d; omega
+          · rw [sf.2.2.2.2.2.2.2, sf.2.2.1]; exact w.logOk
+          · intro _; rw [sf.2.2.2.2.2.2.2, sf.2.2.1]; exact hlog
+          · rw [sf.2.2.2.2.2.2.2]; exact w.nodup
+
+/-- `_restore_state` on a block that is not initialised -/
+theorem restore_spec {c : Cfg} {s : St} (i : Inv c s) (hf : s.failed = none) (hu : s.out.isUndef = true)
+    (q : String) (exp : Option Nat) (sd : Option Val) (m : CalcMode) :
+    Inv c (restore c s q exp sd m).1 ∧ (restore c s q exp sd m).1.stopped = s.stopped ∧
+    fires (restore c s q exp sd m).1.log = fires s.log ∧ (restore c s q exp sd m).1.failed = none ∧
+    (restore c s q exp sd m).1.next = s.next ∧ (restore c s q exp sd m).1.now = s.now ∧
+    ((restore c s q exp sd m).1.out.isUndef = false → (restore c s q exp sd m).1.state = some q) ∧
+    ((restore c s q exp sd m).1.out.isUndef = true → Idle (restore c s q exp sd m).1) := by
+  have hi : Idle s := i.undef hu hf
+  have same : Inv c s ∧ s.stopped = s.stopped ∧ fires s.log = fires s.log ∧ s.failed = none ∧ s.next = s.next ∧
+      s.now = s.now ∧ (s.out.isUndef = false → s.state = some q) ∧ (s.out.isUndef = true → Idle s) := by
+    refine ⟨i, rfl, rfl, hf, rfl, rfl, ?_, fun _ => hi⟩
+    intro h; rw [hu] at h; cases h
+  -- the block with `_state` and `sdata` assigned
+  have w1 : InvW c ((s.enter q).setInput sd) := by
+    refine ⟨.inl hi, ?_, ?_, i.nodup⟩
+    · intro x hx
+      have := i.logOk x hx
+      exact ⟨this.1, this.2.1, Nat.le_succ_of_le this.2.2⟩
+    · intro hl; exact absurd hi.1 hl
+  have hlog1 : ∀ x ∈ fires ((s.enter q).setInput sd).log,
+      x.2.2 < ((s.enter q).setInput sd).epoch := by
+    intro x hx
+    exact Nat.lt_succ_of_le (i.logOk x hx).2.2
+  have tail : ∀ arm : Option (Nat × TEvent),
+      (∀ d ev, arm = some (d, ev) → ∃ dflt, c.tbl.timedOf q = some (ev, dflt)) →
+      Inv c (restoreTail c ((s.enter q).setInput sd) arm m).1 ∧
+      (restoreTail c ((s.enter q).setInput sd) arm m).1.stopped = s.stopped ∧
+      fires (restoreTail c ((s.enter q).setInput sd) arm m).1.log = fires s.log ∧
+      (restoreTail c ((s.enter q).setInput sd) arm m).1.failed = none ∧
+      (restoreTail c ((s.enter q).setInput sd) arm m).1.next = s.next ∧
+      (restoreTail c ((s.enter q).setInput sd) arm m).1.now = s.now ∧
+      ((restoreTail c ((s.enter q).setInput sd) arm m).1.out.isUndef = false →
+        (restoreTail c ((s.enter q).setInput sd) arm m).1.state = some q) ∧
+      ((restoreTail c ((s.enter q).setInput sd) arm m).1.out.isUndef = true →
+        Idle (restoreTail c ((s.enter q).setInput sd) arm m).1) := by
+    intro arm harm
+    have sp := restoreTail_spec w1 hi hu hlog1 arm m
+      (fun d ev h => by obtain ⟨dflt, hd⟩ := harm d ev h; exact ⟨q, dflt, rfl, hd⟩)
+    exact ⟨sp.1, sp.2.1, sp.2.2.1, sp.2.2.2.1.trans hf, sp.2.2.2.2.1, sp.2.2.2.2.2.2.1,
+      fun _ => sp.2.2.2.2.2.1, fun h => sp.1.undef h (sp.2.2.2.1.trans hf)⟩
+  unfold restore
+  split
+  · exact same
+  · split
+    · exact tail none (fun _ _ h => by cases h)
+    · next t =>
+      split
+      · exact same
+      · split
+        · exact same
+        · next ev dflt ht =>
+          exact tail (some (t - s.now, ev)) (fun d e h => by cases h; exact ⟨dflt, ht⟩)
+
 theorem inv_step {c : Cfg} {s : St} (i : Inv c s) (op : Op) : Inv c (step c s op).1 := by
   cases op with
   | stop => exact (inv_stop i).1
+  | restore q exp sd m =>
+    simp only [step]
+    split
+    · exact i
+    · next h =>
+      simp only [Bool.or_eq_true, Bool.not_eq_true', not_or, Bool.not_eq_false] at h
+      exact (restore_spec i (isSome_false_none h.1) h.2 q exp sd m).1
   | advance t =>
     simp only [step]
     split
@@ -802,6 +938,14 @@ theorem step_stopped {c : Cfg} {s : St} (i : Inv c s) (hs : s.stopped = true) (o
   have hi := idle_of_stopped i hs
   cases op with
   | stop => exact ⟨rfl, (stopTimer_spec i.timer).2.1⟩
+  | restore q exp sd m =>
+    simp only [step]
+    split
+    · exact ⟨hs, rfl⟩
+    · next h =>
+      simp only [Bool.or_eq_true, Bool.not_eq_true', not_or, Bool.not_eq_false] at h
+      have sp := restore_spec i (isSome_false_none h.1) h.2 q exp sd m
+      exact ⟨sp.2.1.trans hs, sp.2.2.1⟩
   | gate b => exact ⟨hs, rfl⟩
   | advance t =>
     simp only [step]
@@ -1130,6 +1274,97 @@ theorem quiet_advanceAux (c : Cfg) (t : Nat) (strict : Bool) : ∀ (fuel : Nat) 
         unfold fire
         exact quiet_deliver (s := popTimer s h) hq (isSome_false_none hf) _ _
 
+theorem setOut_fields (s : St) (v : Val) : (setOut s v).failed = s.failed ∧ (setOut s v).next = s.next ∧
+    (setOut s v).state = s.state := by
+  unfold setOut; split <;> exact ⟨rfl, rfl, rfl⟩
+
+theorem restore_fields (c : Cfg) (s : St) (q : String) (exp : Option Nat) (sd : Option Val) (m : CalcMode) :
+    (restore c s q exp sd m).1.next = s.next ∧ (restore c s q exp sd m).1.failed = s.failed ∧
+    ((restore c s q exp sd m).1 = s ∨ (restore c s q exp sd m).1.state = some q) := by
+  have tail : ∀ arm, (restoreTail c ((s.enter q).setInput sd) arm m).1.next = s.next ∧
+      (restoreTail c ((s.enter q).setInput sd) arm m).1.failed = s.failed ∧
+      (restoreTail c ((s.enter q).setInput sd) arm m).1.state = some q := by
+    intro arm
+    unfold restoreTail
+    split
+    · exact ⟨rfl, rfl, rfl⟩
+    · split
+      · exact ⟨rfl, rfl, rfl⟩
+      · dsimp only
+        cases arm with
+        | none => have f := setOut_fields ((s.enter q).setInput sd) ‹Val›; exact ⟨f.2.1, f.1, f.2.2⟩
+        | some de =>
+          have f := setOut_fields (setTimer ((s.enter q).setInput sd) de.1 de.2) ‹Val›
+          have g := setTimer_fields ((s.enter q).setInput sd) de.1 de.2
+          exact ⟨f.2.1.trans g.2.2.2.2.1, f.1.trans g.2.2.2.2.2.1, f.2.2.trans g.2.2.2.1⟩
+  unfold restore
+  split
+  · exact ⟨rfl, rfl, .inl rfl⟩
+  · split
+    · have t := tail none; exact ⟨t.1, t.2.1, .inr t.2.2⟩
+    · next t' =>
+      split
+      · exact ⟨rfl, rfl, .inl rfl⟩
+      · split
+        · exact ⟨rfl, rfl, .inl rfl⟩
+        · next ev _ _ => have t := tail (some (t' - s.now, ev)); exact ⟨t.1, t.2.1, .inr t.2.2⟩
+
+/-- the output after `_restore_state` on a block that is not initialised: still UNDEF, or what `calc_output()`
+    returned for the restored state -/
+theorem restore_out (c : Cfg) (s : St) (q : String) (exp : Option Nat) (sd : Option Val) (m : CalcMode)
+    (hu : s.out.isUndef = true) :
+    (restore c s q exp sd m).1.out.isUndef = true ∨
+    ((restore c s q exp sd m).1.state = some q ∧
+      calcFor c ((s.enter q).setInput sd) m = some (restore c s q exp sd m).1.out) := by
+  have tail : ∀ arm, (restoreTail c ((s.enter q).setInput sd) arm m).1.out.isUndef = true ∨
+      ((restoreTail c ((s.enter q).setInput sd) arm m).1.state = some q ∧
+        calcFor c ((s.enter q).setInput sd) m
+          = some (restoreTail c ((s.enter q).setInput sd) arm m).1.out) := by
+    intro arm
+    unfold restoreTail
+    split
+    · exact .inl hu
+    · next v hc =>
+      split
+      · exact .inl hu
+      · next hv =>
+        have hv' : v.isUndef = false := by simpa using hv
+        right
+        dsimp only
+        cases arm with
+        | none =>
+          have so := setOut_defined ((s.enter q).setInput sd) v hu hv'
+          exact ⟨(setOut_fields _ _).2.2, by rw [so.1]; exact hc⟩
+        | some de =>
+          have g := setTimer_fields ((s.enter q).setInput sd) de.1 de.2
+          have so := setOut_defined (setTimer ((s.enter q).setInput sd) de.1 de.2) v
+            (by rw [g.2.2.2.2.2.2.1]; exact hu) hv'
+          exact ⟨(setOut_fields _ _).2.2.trans g.2.2.2.1, by rw [so.1]; exact hc⟩
+  unfold restore
+  split
+  · exact .inl hu
+  · split
+    · exact tail none
+    · next t' =>
+      split
+      · exact .inl hu
+      · split
+        · exact .inl hu
+        · next ev _ _ => exact tail (some (t' - s.now, ev))
+
+theorem quiet_restore {c : Cfg} {s : St} (hq : Quiet s) (q : String) (exp : Option Nat) (sd : Option Val)
+    (m : CalcMode) : Quiet (step c s (.restore q exp sd m)).1 := by
+  simp only [step]
+  split
+  · exact hq
+  · have f := restore_fields c s q exp sd m
+    intro h
+    have h' : s.failed = none := f.2.1 ▸ h
+    refine ⟨f.1.trans (hq h').1, ?_⟩
+    rcases f.2.2 with e | e
+    · rw [e]; exact (hq h').2
+    · intro _; rw [e]; simp
+
 theorem quiet_step {c : Cfg} {s : St} (hq : Quiet s) (op : Op) : Quiet (step c s op).1 := by
   cases op with
   | stop =>
@@ -1141,6 +1376,7 @@ theorem quiet_step {c : Cfg} {s : St} (hq : Quiet s) (op : Op) : Quiet (step c s
     refine ⟨f.2.1.trans this.1, ?_⟩
     show (stopTimer s).out.isUndef = false → (stopTimer s).state ≠ none
     rw [f.2.2.1, f.2.2.2]; exact this.2
+  | restore q exp sd m => exact quiet_restore hq q exp sd m
   | advance t =>
     simp only [step]
     split
@@ -1168,5 +1404,34 @@ theorem quiet_run (c : Cfg) : ∀ (ops : List Op) (s : St), Quiet s → Quiet (r
   induction ops with
   | nil => intro s h; exact h
   | cons op ops ih => intro s h; exact ih _ (quiet_step h op)
+
+/-! ### the behaviour of `_restore_state` BEFORE the repair (kept for the record, not part of the model)
+
+Until the fix "restore: start the timer only when the state was really restored" `_restore_state` called
+`_set_timer(remaining, timed_event)` as soon as the saved state was found valid and not expired, BEFORE
+`self._state = state`, `self.sdata = sdata` and `calc_output()`.  When `calc_output()` then raised (the error is
+suppressed by `init_from_persistent_data`) or returned UNDEF, the block stayed uninitialised WITH `_active_timer`
+set.  The initialisation that follows, `init_from_value(initdef)` = `Goto(initdef)`, runs `_ctx_event`, which skips
+`_stop_timer()` for a block that is not initialised; a timed target state then overwrites `_active_timer` and the
+first handle is orphaned: nobody can cancel it, it fires later into whatever state the FSM is in, and it survives
+`stop()`.  `restoreOld` is that old program, hand-written; EdzedProps/C04.lean shows on a concrete Timer that with it
+`restore_then_goto_has_one_live_timer` is false (two live handles). -/
+
+/-- PRE-FIX `_restore_state`: the timer is armed before the state is assigned and before `calc_output()` -/
+def restoreOld (c : Cfg) (s : St) (q : String) (exp : Option Nat) (sd : Option Val) (m : CalcMode) : St × Res :=
+  if !c.tbl.states.contains q then (s, .err .valueError)
+  else
+    let body (s0 : St) : St × Res :=
+      let s1 := (s0.enter q).setInput sd
+      match calcFor c s1 m with
+      | none => (s1, .err .keyError)
+      | some v => if v.isUndef then (s1, .ret true) else (setOut s1 v, .ret true)
+    match exp with
+    | none => body s
+    | some t =>
+      if t ≤ s.now then (s, .ret true)
+      else match c.tbl.timedOf q with
+        | none => (s, .err .circuitError)
+        | some (ev, _) => body (setTimer s (t - s.now) ev)
 
 end Edzed.FsmTimer
